@@ -1,6 +1,7 @@
 /-
   OFV.Lemmas.SizeRepeat — repeatability (C13) machinery: `Repeatable`, MarshalBinary purity of the kinds that store
-  nothing, idempotence of the length setters, and lifting of repeatability through lists of children
+  nothing, the hello element (which stores its Length), idempotence of the length setters, and lifting of repeatability
+  through lists of children
   (`mapM2`, `InstrAux.marshalList`).
 -/
 import OFV.Model.All
@@ -68,7 +69,6 @@ theorem NXLearnSpecHeader.marshalM_pure (v : V) : MarPure NXLearnSpecHeader.mars
 theorem NXLearnSpecField.marshalM_pure (v : V) : MarPure NXLearnSpecField.marshalM v := by mar_pure NXLearnSpecField.marshalM
 theorem Header.marshalM_pure (v : V) : MarPure Header.marshalM v := by mar_pure Header.marshalM
 theorem HelloElemHeader.marshalM_pure (v : V) : MarPure HelloElemHeader.marshalM v := by mar_pure HelloElemHeader.marshalM
-theorem HelloElemVersionBitmap.marshalM_pure (v : V) : MarPure HelloElemVersionBitmap.marshalM v := by mar_pure HelloElemVersionBitmap.marshalM
 theorem InstrHeader.marshalM_pure (v : V) : MarPure InstrHeader.marshalM v := by mar_pure InstrHeader.marshalM
 theorem InstrGotoTable.marshalM_pure (v : V) : MarPure InstrGotoTable.marshalM v := by mar_pure InstrGotoTable.marshalM
 theorem InstrWriteMetadata.marshalM_pure (v : V) : MarPure InstrWriteMetadata.marshalM v := by mar_pure InstrWriteMetadata.marshalM
@@ -86,6 +86,56 @@ theorem BundleControl.marshalM_pure (v : V) : MarPure BundleControl.marshalM v :
 theorem UBuffer.marshalM_pure (v : V) : MarPure UBuffer.marshalM v := by mar_pure UBuffer.marshalM
 
 
+
+/-! ### HelloElemVersionBitmap: MarshalBinary() stores `Length = 4 + 4·|bitmaps|` in the element header -/
+
+theorem HelloElemVersionBitmap.lenM_pure (v : V) : LenPure HelloElemVersionBitmap.lenM v := by
+  intro l v1 h
+  unfold HelloElemVersionBitmap.lenM at h
+  obtain ⟨_, _, h'⟩ := bind_ok_inv _ _ _ h
+  exact (same_ok _ _ _ _ h').2
+
+/-- what a successful MarshalBinary() leaves behind: the same element with the stored Length replaced -/
+theorem HelloElemVersionBitmap.marshalM_shape (v : V) (bs : Bytes) (v2 : V)
+    (h : HelloElemVersionBitmap.marshalM v = .ok (bs, v2)) :
+    ∃ ty l0 bms, v = .obj "HelloElemVersionBitmap" [.obj "HelloElemHeader" [ty, l0], .list bms] ∧
+      v2 = .obj "HelloElemVersionBitmap" [.obj "HelloElemHeader" [ty, V.u16 (4 + n16 (bms.length * 4))], .list bms] := by
+  unfold HelloElemVersionBitmap.marshalM at h
+  split at h
+  · rename_i ty l0 bms
+    revert h; (repeat peel1); intro h; cases h
+    exact ⟨ty, l0, bms, rfl, rfl⟩
+  · exact absurd h (by simp)
+
+/-- MarshalBinary() does not look at the stored Length -/
+theorem HelloElemVersionBitmap.marshalM_hdr (ty l0 l1 : V) (bms : List V) :
+    HelloElemVersionBitmap.marshalM (.obj "HelloElemVersionBitmap" [.obj "HelloElemHeader" [ty, l0], .list bms]) =
+    HelloElemVersionBitmap.marshalM (.obj "HelloElemVersionBitmap" [.obj "HelloElemHeader" [ty, l1], .list bms]) := rfl
+
+/-- Len() does not look at the element header -/
+theorem HelloElemVersionBitmap.lenM_hdr (h0 h1 : V) (bms : List V) (l : UInt16) (v1 : V)
+    (h : HelloElemVersionBitmap.lenM (.obj "HelloElemVersionBitmap" [h0, .list bms]) = .ok (l, v1)) :
+    HelloElemVersionBitmap.lenM (.obj "HelloElemVersionBitmap" [h1, .list bms]) =
+      .ok (l, .obj "HelloElemVersionBitmap" [h1, .list bms]) := by
+  simp only [HelloElemVersionBitmap.lenM, HelloElemVersionBitmap.len, Res.bind_ok] at h ⊢
+  obtain ⟨e, _⟩ := same_ok _ _ _ _ h
+  subst e; rfl
+
+/-- HelloElemVersionBitmap: not pure any more (the Length is stored), but repeatable in any order -/
+theorem HelloElemVersionBitmap.repeatable (v : V) :
+    Repeatable HelloElemVersionBitmap.lenM HelloElemVersionBitmap.marshalM v := by
+  refine ⟨fun l v1 h => ?_, ?_, ?_, ?_⟩
+  · have e := HelloElemVersionBitmap.lenM_pure v l v1 h
+    subst e; exact h
+  · intro bs v2 h2
+    obtain ⟨ty, l0, bms, rfl, rfl⟩ := HelloElemVersionBitmap.marshalM_shape v bs v2 h2
+    exact (HelloElemVersionBitmap.marshalM_hdr ty _ l0 bms).trans h2
+  · intro l v1 bs v2 h1 h2
+    obtain ⟨ty, l0, bms, rfl, rfl⟩ := HelloElemVersionBitmap.marshalM_shape v bs v2 h2
+    exact HelloElemVersionBitmap.lenM_hdr _ _ bms l v1 h1
+  · intro l v1 bs v2 h1 h2
+    have e := HelloElemVersionBitmap.lenM_pure v l v1 h1
+    subst e; exact h2
 
 /-! ### more MarshalBinary() purity / kind preservation -/
 
